@@ -162,6 +162,17 @@ theorem fstring_parts (text rest : List Char) (c : Char) (h : ∀ d ∈ text, sp
       simp [hc, this]
     simp only [fStringPart, hs, splitAtByte_prefix]
 
+/-- T4, all inputs (`fstring_parts_total`). For EVERY input — arbitrary Unicode,
+    escapes, `\\u{…}`, doubled braces, truncated text — the byte offset the
+    scanner hands to `split_at` is a character boundary: `f_string_part` never
+    panics, and the part's text followed by the rest (and the closing quote
+    for the last part) is the input, unchanged. -/
+theorem fstring_parts_total (inp : List Char) :
+    fStringPart inp ≠ .panic ∧
+    ∀ k text rest, fStringPart inp = .part k text rest →
+      (k = .intermediate → inp = text ++ rest) ∧ (k = .stringEnd → inp = text ++ '"' :: rest) :=
+  fStringPart_total inp
+
 /-- the witness of the defect fixed by 58d0a1f, on the model of the fixed scanner -/
 example : fStringPart "é {x}\"".toList = .part .intermediate "é ".toList "{x}\"".toList := by
   have := (fstring_parts "é ".toList "}\"".toList 'x' (by decide) (by decide)).2
